@@ -80,5 +80,46 @@ pub fn c16(thorough: bool, stubs: &BTreeSet<String>) -> Vec<CellDef> {
     un!(v, stubs, t, P32E2, exp, exp2, exp10, ln, log2, log10, cbrt, sin, cos, tan, asin, acos, atan, exp_m1, ln_1p, sinh, cosh, tanh, asinh, acosh, atanh, sqrt, recip, to_degrees, to_radians, round, floor, ceil, trunc, fract, abs, signum, neg);
     bi!(v, stubs, t, P32E2, powf, hypot, atan2, log, rem, div_euclid, rem_euclid, copysign, min, max);
     extra!(v, stubs, t, P32E2);
+    // entry points that are generic over the *source type*: a foreign ToPrimitive implementation may answer None to any
+    // of its conversions (num-complex, big integers out of range do); every combination of answers must come back as a
+    // value or None, never as an unwind
+    v.push(CellDef::new("C16", "generic/total/NumCast::from(foreign source)", Space::func(3 * 256, "3 posit types x every combination of Some/None answers of a foreign ToPrimitive source (i64, u64, f64, f32, i128, u128, isize, usize)", |i| i as u128), |k| {
+        let w = Foreign((k % 256) as u8);
+        call(guard(|| match k / 256 {
+            0 => <P8E0 as num_traits::NumCast>::from(w).map_or(0x1_0000_0000, |p| p.to_bits() as u128),
+            1 => <P16E1 as num_traits::NumCast>::from(w).map_or(0x1_0000_0000, |p| p.to_bits() as u128),
+            _ => <P32E2 as num_traits::NumCast>::from(w).map_or(0x1_0000_0000, |p| p.to_bits() as u128),
+        }))
+    }));
     v
+}
+
+/// a ToPrimitive source whose eight conversions answer Some(3) / None according to the bits of its field
+#[derive(Clone, Copy)]
+struct Foreign(u8);
+impl num_traits::ToPrimitive for Foreign {
+    fn to_i64(&self) -> Option<i64> {
+        (self.0 & 1 != 0).then_some(3)
+    }
+    fn to_u64(&self) -> Option<u64> {
+        (self.0 & 2 != 0).then_some(3)
+    }
+    fn to_f64(&self) -> Option<f64> {
+        (self.0 & 4 != 0).then_some(3.0)
+    }
+    fn to_f32(&self) -> Option<f32> {
+        (self.0 & 8 != 0).then_some(3.0)
+    }
+    fn to_i128(&self) -> Option<i128> {
+        (self.0 & 16 != 0).then_some(3)
+    }
+    fn to_u128(&self) -> Option<u128> {
+        (self.0 & 32 != 0).then_some(3)
+    }
+    fn to_isize(&self) -> Option<isize> {
+        (self.0 & 64 != 0).then_some(3)
+    }
+    fn to_usize(&self) -> Option<usize> {
+        (self.0 & 128 != 0).then_some(3)
+    }
 }
